@@ -167,16 +167,23 @@ impl Function {
         let start = match vec_val.pop() {
             Ok(n) => i16::try_from(n)?,
             Err(_) => 1,
-        } as usize;
+        };
         if start == 0 {
             return Err(error!(IllegalFunctionCall; "START IS 0"));
         }
+        if start < 0 {
+            return Err(error!(IllegalFunctionCall));
+        }
+        let start = start as usize;
         let ch_idx = match string.char_indices().nth(start - 1) {
             Some((pos, _ch)) => pos,
             None => return Ok(Val::Integer(0)),
         };
         let string: Rc<str> = string[ch_idx..].into(); //??
-        let index = string.find(pattern.as_ref()).unwrap_or(0);
+        let index = match string.find(pattern.as_ref()) {
+            Some(index) => index,
+            None => return Ok(Val::Integer(0)),
+        };
         let str_index = string
             .char_indices()
             .enumerate()
